@@ -134,6 +134,14 @@ def concrete_bool(v):
 
 def replay_function(qual, inputs, registry=None):
     """returns dict(confirmed: bool, outcome, failed: [...], detail)"""
+    calls.NATIVE_MODE[0] = True
+    try:
+        return _replay_function(qual, inputs, registry)
+    finally:
+        calls.NATIVE_MODE[0] = False
+
+
+def _replay_function(qual, inputs, registry=None):
     registry = registry or contract.Registry()
     c = registry.get(qual)
     f = real_function(c.target)
@@ -462,6 +470,14 @@ def run_witness(w, bad_expr):
 
 # ----------------------------------------------------------------------------- native instances of lemmas (vacuity guard + bounded test)
 def lemma_instances(lem, registry, seed=0, tries=400, want=5):
+    calls.NATIVE_MODE[0] = True
+    try:
+        return _lemma_instances(lem, registry, seed, tries, want)
+    finally:
+        calls.NATIVE_MODE[0] = False
+
+
+def _lemma_instances(lem, registry, seed=0, tries=400, want=5):
     """random small inputs; those satisfying every `requires` are run through the lemma body with the REAL functions.
     -> dict(tried, satisfied, violated: [...])"""
     import random
